@@ -469,7 +469,8 @@ static inline std::vector<Val> alphabet(Rng& r, const FSpec& f, bool allowNeg = 
     for (int i = 0; i < k; i++) {
         double v;
         if (exactReals) v = 0.5 * r.range(allowNeg ? -12 : 1, 12);
-        else switch (r.below(4)) {
+        else switch (r.below(r.chance(1, 6) ? 5 : 4)) {
+            case 4: v = 1e-6 * r.range(allowNeg ? -9 : 1, 9); break;   // below the terminal precision (1e-5)
             case 0: v = 0.5 * r.range(allowNeg ? -12 : 1, 12); break;
             case 1: v = r.unit() * 10.0; break;
             case 2: v = allowNeg ? -r.unit() * 100.0 : r.unit() * 3.0; break;
